@@ -8,12 +8,12 @@ from harness.c01 import signature
 
 def impl(case):
     from harness import cls
-    out, c, _ = cls.classify(case["gens"], routes=case.get("routes"))
+    out, c, _ = cls.classify(case["gens"], routes=case.get("routes"), trace=True)
     # repetition inside one process: same object, fresh classify(), fresh object
     again = [c.get_algebra(), c.classify().get_algebra(), cls.classify(case["gens"])[0]["algebra"]]
     out["again"] = again
     out["is_own"] = bool(c.is_algebra(out["algebra"]))
-    return {"algebra": out["algebra"], "again": again, "is_own": out["is_own"], "morphs": out["morphs"]}
+    return {"algebra": out["algebra"], "again": again, "is_own": out["is_own"], "morphs": out["morphs"], "attach_sites": out.get("attach_sites")}
 
 
 XYZ_PERMS = [dict(zip("IXYZ", "I" + "".join(p))) for p in (("X", "Y", "Z"), ("X", "Z", "Y"), ("Y", "X", "Z"), ("Y", "Z", "X"), ("Z", "X", "Y"), ("Z", "Y", "X"))]
@@ -62,6 +62,8 @@ def main():
     base = G.collections(ck.rng, 250 if ck.quick else 1500, 2, 6) + G.collections(ck.rng, 250 if ck.quick else 3000, 7, 12) + \
         G.collections(ck.rng, 60 if ck.quick else 1500, 13, 16)
     base.append(("star", 5, ["XIIII", "ZIIII", "ZZIII", "ZIZII", "ZIIZI", "ZIIIZ", "ZZZZZ"]))
+    # recorded witness of the known finding as presentation dependence (8*sp(4) or 2*sp(8) depending on the qubit order)
+    base.append(("witness", 5, ["ZZIZY", "XIXIY", "ZZXYI", "YXIZZ", "XYXXY", "YIYZX", "ZXIYY", "XYXXX", "XIZII", "ZYXII"]))
     jobs = []   # (base index, transformation name, n, gens)
     for i, (kind, n, g) in enumerate(base):
         jobs.append((i, "identity", n, g))
@@ -107,7 +109,7 @@ def main():
         if len(set(g0)) > 1 and r0["algebra"].count("u(1)") == 0:
             nt.add((name, tuple(g)))
         if norm(r["algebra"]) != norm(r0["algebra"]):
-            key = signature(r["morphs"]) or signature(r0["morphs"])
+            key = signature(r["morphs"], r.get("attach_sites")) or signature(r0["morphs"], r0.get("attach_sites"))
             ck.fail(key, "%s changes the reported algebra: %s -> %s on %s -> %s" % (name, r0["algebra"], r["algebra"], g0, g),
                     {"n": n0, "gens": g0, "transformation": name, "transformed": g, "routes": routes.get(j), "base_answer": r0["algebra"], "transformed_answer": r["algebra"]})
     # processes and hash seeds: fresh worker processes with different PYTHONHASHSEED
